@@ -9,6 +9,10 @@ pool children) is compared with the Lean model; objects are numbered by identity
 Oracle (implementation only, after every operation): inventory conservation, one assembly per cell, the three
 lookup tables truthful by NAME, purged assemblies not found, contents of every block unchanged, non-stationary
 block sequence of every assembly unchanged, stationary blocks stay at their core cell.
+Below block level (after every operation): every block's parent is the assembly that lists it and its locator sits on
+that assembly's axial grid, every pin lattice refers back to its block; for the assemblies an operation touched (all at
+the start and the end) the pin sites of every block are where they were in the block and resolve to the centre of the
+assembly's cell + that offset at the block's elevation.
 """
 import copy
 
@@ -23,8 +27,9 @@ PARTIAL = ("block-level lookup theorem blocks_run_with_purge covers arbitrary hi
            "not covered by the theorem); the name-level theorems are general for the registration steps and witness-"
            "level for the whole fresh discharge; "
            "the identity-level state machine identifies names with the objects they resolve to; renaming (renumber / makeUnique) "
-           "is modelled in a separate name-level layer (nCoreAdd / nDischarge / nPurge) tied by name probes around fresh discharges; SFP cell coordinates, numMoves / lastLocationLabel bookkeeping and the "
-           "symmetry-factor rescaling of volume-integrated parameters on moves are not modelled")
+           "is modelled in a separate name-level layer (nCoreAdd / nDischarge / nPurge) tied by name probes around fresh discharges; numMoves / lastLocationLabel bookkeeping and the "
+           "symmetry-factor rescaling of volume-integrated parameters on moves are not modelled; SpentFuelPool._getNextLocation "
+           "is modelled at function level (sfpNext, probed on the real pool after every pool-changing operation)")
 ASSUMPTIONS = [
     "copy.deepcopy + makeUnique yields a fresh assembly sharing nothing with its source",
     "dict semantics of childrenByLocator / assembliesByName / blocksByName are modelled as total functions",
@@ -154,6 +159,12 @@ def oracle(w, fails, case, tag, fresh_stationary=False):
         wrong = [a.name for a in kids if by.get(a.spatialLocator) is not a]
         fails.append(Failure("bylocator-truthful", "the lookup by location lists exactly the assemblies present, each "
                              "where the operation put it", case, observed=[len(by), len(kids), wrong[:3]], note=tag))
+    pcells = [(int(a.spatialLocator.i), int(a.spatialLocator.j), int(a.spatialLocator.k)) for a in sfp
+              if a.spatialLocator is not None and a.spatialLocator.grid is sfp.spatialGrid]
+    if len(set(pcells)) != len(pcells) or len(pcells) != len(list(sfp)):
+        fails.append(Failure("pool-cells-distinct", "every assembly sent to the pool sits at a pool cell of its own", case,
+                             observed={"pool": len(list(sfp)), "on the pool grid": len(pcells),
+                                       "twice": sorted(c for c in set(pcells) if pcells.count(c) > 1)[:3]}, note=tag))
     if any(a.parent is not core for a in kids) or any(a.parent is not sfp for a in sfp):
         fails.append(Failure("parent-links", "every assembly's parent is the container that lists it", case, note=tag))
     bn, bb = core.assembliesByName, core.blocksByName
@@ -199,6 +210,8 @@ def oracle(w, fails, case, tag, fresh_stationary=False):
             fails.append(Failure("purged-not-found", "a purged assembly (or one of the blocks it left with) is never "
                                  "returned by a lookup", case, observed={"assembly": a.name, "blocks still found": found[:5]},
                                  note=tag))
+    if tag == "init":
+        below_ok(w, fails, case, tag, list(core))
     present = {id(a) for a in kids} | {id(a) for a in sfp}
     expected = set(w.universe) - {id(a) for a in w.purged}
     if present != expected or len(kids) + len(sfp) != len(present):
@@ -208,7 +221,80 @@ def oracle(w, fails, case, tag, fresh_stationary=False):
                                        "unexpected": len(present - expected)}, note=tag))
 
 
+def _sites(c):
+    """(sampled) locator sites of a component: first / middle / last of a MultiIndexLocation, or the locator itself"""
+    from armi.reactor import grids
+    loc = c.spatialLocator
+    if loc is None:
+        return []
+    if isinstance(loc, grids.MultiIndexLocation):
+        subs = list(loc)
+        return [subs[p] for p in sorted({0, len(subs) // 2, len(subs) - 1})] if subs else []
+    return [loc]
+
+
+def below_ok(w, fails, case, tag, assems=None):
+    """Below block level, after every operation: every block hangs under the assembly that lists it and sits on that
+    assembly's axial grid; every pin lattice belongs to the block that holds it and the block's children sit on it;
+    the pins of every core assembly resolve to the global position "centre of the assembly's cell + the pin's offset
+    in its block (as it was when the block was first seen: contents) + the block's elevation in its assembly"."""
+    import numpy as np
+    core = w.core
+    pinsig = w.__dict__.setdefault("pinsig", {})
+    bad_parent, bad_grid, bad_owner = [], [], []
+    for a in list(core) + list(w.sfp):
+        for b in a:
+            if b.parent is not a or any(c.parent is not b for c in b):
+                bad_parent.append((a.name, b.name))
+            if b.spatialLocator is None or b.spatialLocator.grid is not a.spatialGrid:
+                bad_grid.append((a.name, b.name))
+            g = b.spatialGrid
+            if g is not None and (g.armiObject is not b or any(
+                    getattr(c.spatialLocator, "grid", None) not in (None, g) for c in b)):
+                bad_owner.append((a.name, b.name))
+    if bad_parent:
+        fails.append(Failure("below-parent-links", "every block's parent is the assembly that lists it, every component's "
+                             "parent its block", case, observed=bad_parent[:4], note=tag))
+    if bad_grid:
+        fails.append(Failure("block-on-own-assembly-grid", "every block sits on the axial grid of the assembly that lists it",
+                             case, observed=bad_grid[:4], note=tag))
+    if bad_owner:
+        fails.append(Failure("pin-lattice-owned", "a block's pin lattice refers back to that block and its children sit on it",
+                             case, observed=bad_owner[:4], note=tag))
+    if bad_parent or bad_grid or bad_owner or assems is None:
+        return
+    incore = {id(a) for a in core}
+    for a in assems:
+        if id(a) not in incore:
+            continue
+        c0 = cell_of(a)
+        centre = np.array(core.spatialGrid.getCoordinates((c0[0], c0[1], 0)), dtype=float)
+        z = 0.0
+        for b in a:
+            h = float(b.getHeight())
+            local = []
+            sites = [s for c in b for s in _sites(c) if getattr(s, "grid", None) is not None]
+            for s in sites:
+                local.append(tuple(float(v) for v in s.getLocalCoordinates()))
+            was = pinsig.setdefault(id(b), tuple(local))
+            if was != tuple(local):
+                fails.append(Failure("contents-pins-unchanged", "moves never alter an assembly's contents: the pin sites of "
+                                     "every block are where they were in the block", case, observed=[a.name, b.name], note=tag))
+                return
+            for s, loc in zip(sites, local):
+                got = np.array(s.getGlobalCoordinates(), dtype=float)
+                want = np.array([centre[0] + loc[0], centre[1] + loc[1], z + h / 2.0 + loc[2]])
+                if not np.allclose(got, want, atol=1e-6):
+                    fails.append(Failure("pins-follow-assembly", "each assembly sits where the operation put it, down to its "
+                                         "pins: a pin resolves to its cell's centre + its offset in the block, at the block's "
+                                         "elevation", case, observed=[a.name, c0, b.name, [round(float(v), 6) for v in got]],
+                                         expected=[round(float(v), 6) for v in want], note=tag))
+                    return
+            z += h
+
+
 def contents_ok(w, fails, case, tag, assems):
+    below_ok(w, fails, case, tag, assems)
     for a in assems:
         seq = [id(b) for b in a if not w.is_stat(b)]
         if seq != w.nonstat.get(id(a)):
@@ -406,6 +492,20 @@ def apply_op(w, op):
     return None
 
 
+def sfp_probe(w):
+    """Function-level probe of SpentFuelPool._getNextLocation on the pool as it is now (read only): request for
+    Model/Shuffle.lean sfpNext and the real answer."""
+    sfp = w.sfp
+    if sfp.numColumns is None:
+        sfp._updateNumberOfColumns()
+    filled = [(int(a.spatialLocator.i), int(a.spatialLocator.j)) for a in sfp
+              if a.spatialLocator is not None and a.spatialLocator.grid is sfp.spatialGrid]
+    w.nc_ok = getattr(w, "nc_ok", True) and int(sfp.numColumns) > 0     # hypothesis of Props/C14 sfpNext_free
+    loc = sfp._getNextLocation()
+    return ("sfpnext %d [%s]" % (int(sfp.numColumns), ",".join("[%d,%d]" % c for c in filled)),
+            "[%d,%d]" % (int(loc.i), int(loc.j)))
+
+
 def touched(op):
     k = op[0]
     if k == "swap":
@@ -473,6 +573,10 @@ def run_sequence(ctx, track, stat, nops, seed, compare=True):
                 break
         else:
             impl.append(w.canon())
+        if op[0] in ("remove", "dnew", "dsfp") or k % 5 == 0:       # the pool changed (or now and then)
+            q, a = sfp_probe(w)
+            req.append(q); impl.append(a)
+            ctx.count("sfp next-location probes" if w.nc_ok else "sfp probes with numColumns = 0 (hypothesis violated)")
         nf = len(fails)
         oracle(w, fails, case, tag)
         contents_ok(w, fails, case, tag, touched(op))
